@@ -188,6 +188,20 @@ example : (XStream.mk [(3, 2), (7, 4)] 1 2 1 [0, 0, 0, 255, 1, 1, 35, 0]).row 1 
     findIndex [(3, 2), (7, 4)] 7 indexStart = some 2 ∧ findIndex [(3, 2), (7, 4)] 5 indexStart = none := by
   decide
 
+/-- Entry lines of the classic table regenerated from `PDFXRef.load` mean ISO 32000-1 7.5.4:
+`nnnnnnnnnn ggggg n` — first field the byte offset, second the generation, third the keyword; the stored
+tuple is `(None, offset, generation)`; a subsection `start count` numbers its lines `start … start+count−1`. -/
+theorem C02_table_entry_layout :
+    (∀ a b c : Bytes, entryTuple a b c = (a, b, c)) ∧
+    (∀ p g, mkEntry (tableEntryOf p g) = ⟨none, p, g⟩) ∧
+    (∀ s n : Int, subsectionFirst s n = s ∧ subsectionStop s n = s + n ∧ subCount s n = n.toNat) := by
+  refine ⟨fun _ _ _ => rfl, fun _ _ => rfl, fun s n => ⟨rfl, rfl, subCount_eq s n⟩⟩
+
+/-- `0000000017 00003 n` as object 7: offset 17, generation 3. -/
+example : (match tableEntries 1 7 [48, 48, 48, 48, 48, 48, 48, 48, 49, 55, 32, 48, 48, 48, 48, 51, 32, 110, 32, 10] 0 [] with
+    | .ok (offs, rest, pos) => offs == [((7 : Int), (⟨none, 17, 3⟩ : Entry))] && rest.isEmpty && pos == 20
+    | .error _ => false) = true := by decide
+
 /-- Keywords and field shapes of the classic table, and the chaining order (7.5.8.4: the
 table of a hybrid file is consulted first, then its `XRefStm`, then `Prev`). -/
 theorem C02_literals :
